@@ -68,6 +68,7 @@ def run(tier, out, model_ok, proof):
     else:
         results, mism = scancorr.run_scan_impl_only(cases)
     ends = {}
+    oracle_n = 0
     nontrivial = set()
     nexact = 0
     for cid, data in cases:
@@ -75,6 +76,10 @@ def run(tier, out, model_ok, proof):
         if r is None:
             continue
         ends[r["end"][0]] = ends.get(r["end"][0], 0) + 1
+        oracle_n += r.get("oracle_answers", 0)
+        if r.get("oracle_past_eof"):
+            out.broken.append({"what": "ORACLE CONTRACT of C12_lexemes_lie_inside_the_file violated: the schema library reported a length that reaches beyond the end of the file: %s" % r["oracle_past_eof"],
+                               "detail": data.decode("latin1")[:400]})
         if len(r["lex"]) >= 2:
             nontrivial.add(data)
         why = wellformed(data, r)
@@ -99,6 +104,7 @@ def run(tier, out, model_ok, proof):
         "exactness_cases": nexact,
         "end_kinds": ends,
         "correspondence_mismatches": len(mism),
+        "oracle_answers_within_the_file": oracle_n,
         "exhaustive": False,
     })
     out.assumptions += [
